@@ -18,7 +18,8 @@ RULE = ('Hypothesis: programs from the lazy alphabet (map, lazy filter, every sl
         'subsequence of what a generator-based lazy reference interpreter evaluates for the same demand (with the '
         'look-ahead the statement allows: one batch, the shuffle buffer, buffer_size+2 for prefetch), which bounds '
         'multiplicity and order. Plus dynamic bucket batching (C17 parameter space) with a counting sort_key and a counting '
-        'stage below: each sees an example at most once, the stage below in source order. Non-trivial: 0 < k < len, depth >= 2 and >= 2 instrumented stages, or an index/key '
+        'stage below: each sees an example at most once, the stage below in source order. Plus a lazy apply stage below '
+        'stacks of lazy stages: the apply function runs once per iteration, never at construction. Non-trivial: 0 < k < len, depth >= 2 and >= 2 instrumented stages, or an index/key '
         'access into a program of depth >= 3; distinct by case JSON.')
 ASSUMPTIONS = [
     'only "subsequence of the reference demand" is required per stage: fewer evaluations are always fine and the '
@@ -244,9 +245,62 @@ def check_bucket(case):
     return len(out), bool(twice or sort_calls)
 
 
+APPLY_TOPS = ['map', 'batch', 'prefetch1', 'catch', 'copy', 'batch_unbatch', 'local_shuffle', 'slice_none']
+
+
+def check_apply(case):
+    """A lazy apply stage (a user function from dataset to dataset) below a stack of lazy stages: the apply function
+    runs at no time but when an iteration starts, once per iteration; the stage it builds sees every example once per
+    iteration."""
+    import lazy_dataset
+    n, tops, epochs = case['n'], case['tops'], case['epochs']
+    desc = f'new(range({n})).apply(f, lazy=True) below {tops}, {epochs} iteration(s)'
+    apply_calls, inner = [], []
+
+    def spy(x):
+        inner.append(x)
+        return x
+
+    def f(d):
+        apply_calls.append(1)
+        return d.map(spy)
+
+    ds = lazy_dataset.new(list(range(n))).apply(f, lazy=True)
+    for t in tops:
+        if t == 'map':
+            ds = ds.map(lambda x: x)
+        elif t == 'batch':
+            ds = ds.batch(2)
+        elif t == 'prefetch1':
+            ds = ds.prefetch(1, 2)
+        elif t == 'catch':
+            ds = ds.catch()
+        elif t == 'copy':
+            ds = ds.copy()
+        elif t == 'batch_unbatch':
+            ds = ds.batch(3).unbatch()
+        elif t == 'local_shuffle':
+            ds = ds.shuffle(True, buffer_size=2)
+    if apply_calls or inner:
+        raise Violation('construction-evaluates|apply', f'{desc}\nconstruction ran the apply function '
+                                                        f'{len(apply_calls)} time(s), its stage saw {inner}')
+    for e in range(epochs):
+        got, exc, _ = observe.take(lambda: ds, 10 * n + 10)
+        if exc is not None:
+            raise RuntimeError(f'harness: {desc}: {exc!r}')
+        if len(apply_calls) != e + 1:
+            raise Violation('prefix-evaluated-twice|apply',
+                            f'{desc}\nafter iteration {e + 1} the apply function had run {len(apply_calls)} times')
+        if sorted(inner) != sorted(list(range(n)) * (e + 1)):
+            raise Violation('prefix-evaluated-twice|apply-inner',
+                            f'{desc}\nafter iteration {e + 1} the stage built by the apply function had seen {inner}')
+
+
 def replay(case):
     progcheck.setup_process()
-    if 'lengths' in case:
+    if 'tops' in case:
+        check_apply(case)
+    elif 'lengths' in case:
         check_bucket(case)
     else:
         check(case)
@@ -354,4 +408,17 @@ def run_shard(tier, idx, nshards, rec, known):
         nb, sorted_any = check_bucket(case)
         rec.case(dict(case, part='dynamic-buckets'), nb >= 2 and sorted_any and len(case['lengths']) >= 4,
                  {'dynamic-buckets', 'drop' if case['drop'] else 'keep'}, size=len(case['lengths']))
-    return [o1, drive(bucket, st_bucket(), N[tier] // 5, rec, known, seed() * 1000 + 500 + idx)]
+    o2 = drive(bucket, st_bucket(), N[tier] // 5, rec, known, seed() * 1000 + 500 + idx)
+    if o2.violation:
+        return [o1, o2]
+
+    st_apply = st.fixed_dictionaries({'n': st.integers(0, 5), 'epochs': st.integers(1, 3),
+                                      'tops': st.lists(st.sampled_from(APPLY_TOPS), min_size=0, max_size=4)})
+
+    def apply_case(case):
+        # catch() needs an input that is indexable once frozen: only directly above the apply stage
+        case['tops'] = [t for i, t in enumerate(case['tops']) if t != 'catch' or i == 0]
+        check_apply(case)
+        rec.case(dict(case, part='lazy-apply'), len(case['tops']) >= 2 and case['n'] >= 2,
+                 {'lazy-apply'} | {'top:' + t for t in case['tops']}, size=len(case['tops']))
+    return [o1, o2, drive(apply_case, st_apply, N[tier] // 10, rec, known, seed() * 1000 + 700 + idx)]
